@@ -704,7 +704,7 @@ func main() {
 		return
 	}
 	r := rng.New(*seed)
-	nSeq, nConc, maxN := 1500, 1500, 5
+	nSeq, nConc, maxN := 1000, 1000, 5
 	if *tier == "thorough" {
 		nSeq, nConc, maxN = 30000, 30000, 6
 	}
